@@ -19,7 +19,7 @@ def TemplatesNoBranch (cfg : Cfg) : Bool :=
 /-- class facts are consistent: a branch class is not a gate class, `set` is neither -/
 def InfosWF (cfg : Cfg) : Bool :=
   cfg.infos.all (fun r => (!r.branch || (!r.gate1 && !r.gate2)) && (!r.isSet || (!r.gate1 && !r.gate2 && !r.branch))
-    && !(debugPrefix.isPrefixOf r.cls))
+    && !(debugPrefix.isPrefixOf r.cls) && (!(r.gate1 || r.gate2) || r.writes.isEmpty))
 
 theorem infoOf_cls {cfg : Cfg} {c : String} {info : ClsInfo} (h : infoOf cfg c = some info) :
     info ∈ cfg.infos ∧ info.cls = c := by
@@ -32,7 +32,7 @@ theorem not_debug_of_info {cfg : Cfg} (hW : InfosWF cfg = true) {i : Instr} {inf
   obtain ⟨hm, hc⟩ := infoOf_cls h
   have hw := (List.all_eq_true.1 hW) info hm
   simp only [Bool.and_eq_true, Bool.not_eq_eq_eq_not, Bool.not_true] at hw
-  unfold isDebug; rw [← hc]; exact hw.2
+  unfold isDebug; rw [← hc]; exact hw.1.2
 
 theorem lineOf_none_of_lineFree {cfg : Cfg} {i : Instr} (h : lineFree cfg i.cls = true) :
     lineOf cfg i = none := by
@@ -177,7 +177,7 @@ theorem not_gate_of_line {cfg : Cfg} (hW : InfosWF cfg = true) {i : Instr} {t : 
       unfold infoOf at hi; exact List.mem_of_find?_eq_some hi
     have hw := (List.all_eq_true.1 hW) info hm
     by_cases hb : info.branch = true
-    · simp [hb] at hw; simp [hw.1.1]
+    · simp [hb] at hw; simp [hw.1.1.1]
     · simp [hb] at h
 
 theorem setLine_cls (cfg : Cfg) (i : Instr) (w : Int) : (setLine cfg i w).cls = i.cls := by
